@@ -94,6 +94,18 @@ objs=[f*u*v*ds]'''),
     _c("c11_nometa_mixed_degrees_sum", '''
 m=mesh("triangle"); V=space(m,"P",1); W=space(m,"P",3); v=TestFunction(V); f=Coefficient(W); g=Coefficient(V)
 objs=[g*v*dx + f*f*v*dx]'''),
+    _c("c11_partial_metadata_low_then_none", '''
+m=mesh("triangle"); V=space(m,"P",2); f=Coefficient(V); v=TestFunction(V)
+objs=[f*dx(degree=1) + f*f*dx, f*f*dx(degree=1) + f*dx, f*v*dx(degree=0) + f*f*f*v*dx]'''),
+    _c("c11_partial_metadata_three_terms", '''
+m=mesh("tetrahedron"); V=space(m,"P",2); f=Coefficient(V); g=Coefficient(V)
+objs=[f*dx(degree=1) + f*g*dx(degree=2) + f*f*g*dx, g*g*g*dx + f*dx(degree=8)]'''),
+    _c("c11_partial_metadata_scheme_only", '''
+m=mesh("interval"); V=space(m,"P",3); f=Coefficient(V); v=TestFunction(V)
+objs=[f*v*dx(degree=1) + f*f*v*dx(scheme="default") + f*v*dx(degree=-1, scheme="GLL")]'''),
+    _c("c11_partial_metadata_facets", '''
+m=mesh("triangle"); V=space(m,"P",2); f=Coefficient(V); v=TestFunction(V)
+objs=[f*v*ds(degree=1) + f*f*v*ds, f*v*dx(degree=1) + f*f*v*dx(1) + f*f*f*v*dx(1, degree=2)]'''),
     _c("c11_nometa_hex_q1", '''
 m=mesh("hexahedron"); V=space(m,"Q",1); u,v=TrialFunction(V),TestFunction(V); f=Coefficient(V)
 objs=[f*u*v*dx]'''),
